@@ -142,6 +142,15 @@ template <int CAP> struct EveryCap {
 			while (left > 0) { ws.template write<1>(1); m.write(1, 1); --left; }
 			if (ws.cursor() != CAP || memcmp(buf.data(), m.bytes, (CAP + 7) / 8)) violation("capacity-fill-wide", rp, "capacity %d", CAP);
 			typename S::Rd rs{buf}; for (int i = 0; i < k; ++i) if (rs.template read<8>() != ((0x9E3779B9u * static_cast<uint32_t>(i + 1)) & 0xFFu)) { violation("capacity-fill-wide-read", rp, "capacity %d field %d", CAP, i); break; } }
+		// a write stream opened on a buffer that was used before (any prior contents): bits past the cursor are zero from the start,
+		// and stay zero after every write; clear() by itself gives the same
+		for (int dirt = 0; dirt < 3; ++dirt) { typename S::Buf buf; memset(buf.data(), dirt == 0 ? 0xFF : dirt == 1 ? 0xA5 : 0x80, (CAP + 7) / 8); ++me().cases;
+			if (dirt == 2) { buf.clear(); for (int i = 0; i < (CAP + 7) / 8; ++i) if (buf.data()[i]) { violation("clear-leaves-bits", rp, "capacity %d: byte %d is 0x%02x after clear()", CAP, i, buf.data()[i]); break; } memset(buf.data(), 0xFF, (CAP + 7) / 8); }
+			typename S::Wr ws{buf}; Model m; m.clear();
+			bool bad = false; for (int i = 0; i < (CAP + 7) / 8; ++i) if (buf.data()[i]) bad = true;
+			if (bad) violation("reused-buffer-not-zero", rp, "capacity %d: a write stream opened on a used buffer starts with bits set past the cursor", CAP);
+			const int half = CAP / 2; for (int i = 0; i < half; ++i) { ws.template write<1>(1); m.write(1, 1); }
+			if (ws.cursor() != half || memcmp(buf.data(), m.bytes, (CAP + 7) / 8)) violation("reused-buffer-content", rp, "capacity %d: after %d one-bit fields on a reused buffer the content differs from a fresh one", CAP, half); }
 		// the state-index encoding used by save(): bitWidth(N) bits suffice for every index below N
 		static_assert(CAP - 1 < (1 << ffsm2::bitWidth(CAP)) || ffsm2::bitWidth(CAP) >= 31, "bitWidth(N) too small");
 		EveryCap<CAP - 1>::run();
